@@ -69,6 +69,13 @@ func c03Gen(rng *rand.Rand, tier string) []Case {
 	for i := 0; i < nr; i++ {
 		out = append(out, nodeRandomCase(rng, c03Profile, fmt.Sprintf("r%d", i)))
 	}
+	// two different claims about the running node back to back (the second at or above the first
+	// refutation's time), as the last op of a short life without leave/shutdown
+	for i := 0; i < nd/8+3; i++ {
+		a := uint64(2 + rng.Intn(30))
+		b := a + 2 + uint64(rng.Intn(8)) // above the first refutation's join time (a+1), so it needs a refutation of its own
+		out = append(out, Case{ID: fmt.Sprintf("b%d", i), Ops: []string{fmt.Sprintf("ml2 %d %d %d", a, b, rng.Intn(2))}, Tags: []string{"back-to-back-claims"}})
+	}
 	self := hexs(nodeSelf)
 	for i := range out {
 		nt := false
@@ -77,6 +84,10 @@ func c03Gen(rng *rand.Rand, tier string) []Case {
 				break
 			}
 			f := strings.Fields(o)
+			if f[0] == "ml2" {
+				nt = true
+				break
+			}
 			if (f[0] == "ml" || f[0] == "fl") && f[1] == self {
 				nt = true
 			}
